@@ -88,6 +88,7 @@ type Plan struct {
 	PreFilter      bool // OpenStream with /Filter already in the dictionary and filters given
 	Invalid        bool // one operation the Writer must refuse
 	ZeroCompressed bool // WriteCompressed without objects
+	AfterClose     bool // after Close, one more Put: it has to be refused
 	Batch          int  // size of the next WriteCompressed batch (0: small, occasionally medium)
 	MaxOps         int
 }
@@ -131,6 +132,7 @@ type Result struct {
 	Provoked bool // the program contains an operation that may legitimately be refused
 	Sparse   bool
 	PreFilter bool
+	AfterCloseAccepted string // a Put after Close was accepted (how many bytes it appended)
 	HugeBatch bool // a WriteCompressed call with more than 10000 objects was accepted
 }
 
@@ -637,7 +639,9 @@ func (x *runner) compressed(plan *Plan) bool {
 	if plan.Invalid && k > 0 {
 		plan.Invalid = false
 		x.res.Provoked = true
-		switch x.r.IntN(4) {
+		switch x.r.IntN(5) {
+		case 4:
+			refs[len(refs)-1] = pdf.NewReference(0, 0)
 		case 0:
 			objs = objs[:len(objs)-1]
 		case 1:
@@ -824,7 +828,15 @@ func Run(r *rand.Rand, cfg Config, plan Plan) *Result {
 	if !x.step(cls, text) {
 		return res
 	}
-	res.File = x.sink.Buf
+	res.File = append([]byte{}, x.sink.Buf...)
+	if plan.AfterClose {
+		// not part of the program: the Writer is closed, every further operation is a misuse it has to refuse
+		n := len(x.sink.Buf)
+		cls, _ := x.call(func() error { return x.w.Put(x.w.Alloc(), pdf.Integer(1)) })
+		if cls == "" {
+			res.AfterCloseAccepted = fmt.Sprintf("%d bytes appended after %%%%EOF", len(x.sink.Buf)-n)
+		}
+	}
 	return res
 }
 
